@@ -60,6 +60,72 @@ SHC_CB = ("        def _build_share_hash_chain(results):\n"
           "            return results\n")
 SHC_TAIL = SHC_CB + "        d.addCallback(_build_share_hash_chain)\n        d.addErrback(_handle_bad_struct)\n        return d\n"
 
+# ---- round 6: the three hash-tree updates of _validate_block routed through a helper (seeded C10-I)
+BH_IF = ("        if bht.needed_hashes(segnum, include_leaf=True):\n"
+         "            try:\n"
+         "                bht.set_hashes(blockhashes)\n"
+         "            except (hashtree.BadHashError, hashtree.NotEnoughHashesError, \\\n"
+         "                    IndexError) as e:\n"
+         "                raise CorruptShareError(server,\n"
+         "                                        reader.shnum,\n"
+         "                                        \"block hash tree failure: %s\" % e)\n")
+BH_IF_H = ("        if blockhashes:\n"
+           "            self._add_hashes(bht, reader, \"block hash tree failure\",\n"
+           "                             hashes=blockhashes)\n")
+LEAF_H = ("        self._add_hashes(bht, reader, \"block hash tree failure\",\n"
+          "                         leaves={segnum: blockhash})\n")
+SH_H_GUARDED = ("        if sharehashes:\n"
+                "            self._add_hashes(self.share_hash_tree, reader, \"corrupt hashes\",\n"
+                "                             hashes=sharehashes,\n"
+                "                             leaves={reader.shnum: bht[0]})\n")
+SH_H_FAITHFUL = ("        self._add_hashes(self.share_hash_tree, reader, \"corrupt hashes\",\n"
+                 "                         hashes=dict(sharehashes),\n"
+                 "                         leaves={reader.shnum: bht[0]})\n")
+SH_H_TWO_ARMS = ("        if sharehashes:\n"
+                 "            self._add_hashes(self.share_hash_tree, reader, \"corrupt hashes\",\n"
+                 "                             hashes=sharehashes,\n"
+                 "                             leaves={reader.shnum: bht[0]})\n"
+                 "        else:\n"
+                 "            self._add_hashes(self.share_hash_tree, reader, \"corrupt hashes\",\n"
+                 "                             leaves={reader.shnum: bht[0]})\n")
+GNH_DEF = "    def _get_needed_hashes(self, reader, segnum):\n"
+ADD_HASHES_BODY = ("        try:\n"
+                   "            tree.set_hashes(hashes=hashes, leaves=leaves)\n"
+                   "        except (hashtree.BadHashError, hashtree.NotEnoughHashesError,\n"
+                   "                IndexError) as e:\n"
+                   "            raise CorruptShareError(reader.server,\n"
+                   "                                    reader.shnum,\n"
+                   "                                    \"%s: %s\" % (what, e))\n\n\n")
+ADD_HASHES = "    def _add_hashes(self, tree, reader, what, hashes=None, leaves=None):\n" + ADD_HASHES_BODY
+GNH_OLD = ("        if self.share_hash_tree.needed_hashes(reader.shnum):\n"
+           "            need = self.share_hash_tree.needed_hashes(reader.shnum)\n"
+           "            self.log(\"also need sharehashes for share %d: %s\" % (reader.shnum,\n"
+           "                                                                 str(need)))\n"
+           "            d2 = reader.get_sharehashes(need, force_remote=False)\n"
+           "        else:\n"
+           "            d2 = defer.succeed({}) # the logic in the next method\n"
+           "                                   # expects a dict\n"
+           "        return d1,d2\n")
+GNH_NEW = ("        need = self.share_hash_tree.needed_hashes(reader.shnum)\n"
+           "        if need:\n"
+           "            self.log(\"also need sharehashes for share %d: %s\" % (reader.shnum,\n"
+           "                                                                 str(need)))\n"
+           "        d2 = reader.get_sharehashes(need, force_remote=False)\n"
+           "        return d1, d2\n")
+LOGS_OLD = ("                 list(blockhashes.keys()))\n"
+            "        self.log(\"the reader gave me the following sharehashes: %s\" % \\\n"
+            "                 list(sharehashes.keys()))\n")
+LOGS_NEW = ("                 list(blockhashes))\n"
+            "        self.log(\"the reader gave me the following sharehashes: %s\" % \\\n"
+            "                 list(sharehashes))\n")
+
+
+def _helper_refactor(sh_new, helper=ADD_HASHES, leaf_new=LEAF_H):
+    """the C10-I refactor as edits of the current source; sh_new is the share-hash-tree update"""
+    return [(RET, LOGS_OLD, LOGS_NEW), (RET, BH_IF, BH_IF_H), (RET, LEAF_TRY, leaf_new), (RET, SH_TRY, sh_new),
+            (RET, GNH_OLD, GNH_NEW)], (RET, GNH_DEF, helper + GNH_DEF)
+
+
 MUTANTS = [
     # ---- C10.1 fingerprint gate
     M("fp-compare-deleted", SM, FP_IF, "", "C10.1"),
@@ -155,6 +221,42 @@ MUTANTS = [
       "        bht = self._block_hash_trees[0]\n\n        if bht.needed_hashes", "C10.6"),
     M("validate-other-segment", RET, "            d.addCallback(self._validate_block, segnum, reader, reader.server, started)",
       "            d.addCallback(self._validate_block, 0, reader, reader.server, started)", "C10.6"),
+    # C10-I: hash-tree updates through a helper
+    M("helper-refactor-sharehash-leaf-guarded", *_helper_refactor(SH_H_GUARDED)[1], "C10.6", edits=_helper_refactor(SH_H_GUARDED)[0]),
+    M("helper-refactor-benign-faithful", *_helper_refactor(SH_H_FAITHFUL)[1], None, edits=_helper_refactor(SH_H_FAITHFUL)[0]),
+    M("helper-refactor-benign-guard-skips-only-hashes", *_helper_refactor(SH_H_TWO_ARMS)[1], None,
+      edits=_helper_refactor(SH_H_TWO_ARMS)[0]),
+    M("helper-refactor-helper-skips-when-no-hashes", RET, GNH_DEF,
+      "    def _add_hashes(self, tree, reader, what, hashes=None, leaves=None):\n"
+      "        if not hashes:\n            return\n" + ADD_HASHES_BODY + GNH_DEF, "C10.6",
+      edits=_helper_refactor(SH_H_FAITHFUL)[0]),
+    M("helper-refactor-helper-swallows", RET, GNH_DEF,
+      "    def _add_hashes(self, tree, reader, what, hashes=None, leaves=None):\n"
+      "        try:\n"
+      "            tree.set_hashes(hashes=hashes, leaves=leaves)\n"
+      "        except (hashtree.BadHashError, hashtree.NotEnoughHashesError,\n"
+      "                IndexError) as e:\n"
+      "            self.log(\"%s: %s\" % (what, e))\n\n\n" + GNH_DEF, "C10.6",
+      edits=_helper_refactor(SH_H_FAITHFUL)[0]),
+    M("helper-refactor-helper-drops-leaves", RET, GNH_DEF,
+      ADD_HASHES.replace("tree.set_hashes(hashes=hashes, leaves=leaves)", "tree.set_hashes(hashes=hashes)") + GNH_DEF, "C10.6",
+      edits=_helper_refactor(SH_H_FAITHFUL)[0]),
+    M("helper-refactor-wrong-tree-passed", *_helper_refactor(SH_H_FAITHFUL.replace("self.share_hash_tree", "bht"))[1], "C10.6",
+      edits=_helper_refactor(SH_H_FAITHFUL.replace("self.share_hash_tree", "bht"))[0]),
+    M("helper-refactor-benign-positional-leaf-helper", RET, GNH_DEF,
+      ADD_HASHES + "    def _check_leaf(self, tree, reader, what, index, leafhash):\n"
+      "        leaf = {index: leafhash}\n"
+      "        self._add_hashes(tree, reader, what, None, leaf)\n\n\n" + GNH_DEF, None,
+      edits=_helper_refactor(SH_H_FAITHFUL.replace("hashes=dict(sharehashes),", "hashes=dict(sharehashes) or None,"),
+                             leaf_new="        self._check_leaf(bht, reader, \"block hash tree failure\", segnum, blockhash)\n")[0]),
+    M("helper-refactor-undecidable-leaf-copy", RET, GNH_DEF,
+      ADD_HASHES.replace("        try:\n            tree.set_hashes(", "        leaves = dict(leaves or {})\n        try:\n            tree.set_hashes(") + GNH_DEF,
+      "ANALYSIS-ERROR", edits=_helper_refactor(SH_H_FAITHFUL)[0]),
+    M("sharehash-leaf-short-circuited", RET,
+      "            self.share_hash_tree.set_hashes(hashes=sharehashes,\n"
+      "                                        leaves={reader.shnum: bht[0]})\n",
+      "            sharehashes and self.share_hash_tree.set_hashes(hashes=sharehashes,\n"
+      "                                        leaves={reader.shnum: bht[0]})\n", "C10.6"),
     M("vb-benign-rename-hoist", RET,
       "        return {reader.shnum: (block, salt)}",
       "        shnum = reader.shnum\n        return {shnum: (block, salt)}", None),
@@ -375,6 +477,11 @@ MUTANTS = [
       "        f.trap(DeadReferenceError, RemoteException)\n", "C10.13"),
     M("corrupt-share-error-rebased", "src/allmydata/mutable/common.py", "class CorruptShareError(BadShareError):",
       "class CorruptShareError(Exception):", "C10.13"),
+    M("helper-refactor-helper-raises-untolerated", RET, GNH_DEF,
+      ADD_HASHES.replace("raise CorruptShareError(reader.server,\n                                    reader.shnum,\n"
+                         "                                    \"%s: %s\" % (what, e))",
+                         "raise ValueError(\"%s: %s\" % (what, e))") + GNH_DEF, "C10.13",
+      edits=_helper_refactor(SH_H_FAITHFUL)[0]),
     M("layout-invalid-rebased", LAY, "class LayoutInvalid(BadShareError):", "class LayoutInvalid(Exception):", "C10.13"),
     M("bad-segment-number-valueerror", LAY, "                raise LayoutInvalid(\"Not a valid segment number\")\n",
       "                raise ValueError(\"Not a valid segment number\")\n", "C10.13"),
@@ -468,7 +575,11 @@ MUTANTS = [
       "            for i,h in new_hashes.items():\n                if not (0 <= i < len(self)):\n"
       "                    raise BadHashError(\"hash number out of range\")\n                if self[i]:\n", None),
     M("vanish-set-hashes-rollback-loop", HT, "            for i in remove_upon_failure:\n                self[i] = None\n            raise\n",
-      "            remove_upon_failure.clear()\n            raise\n", "ANALYSIS-ERROR"),
+      "            remove_upon_failure.clear()\n            raise\n", "C10.14"),
+    M("vanish-validate-block-no-tree-update", RET, "                bht.set_hashes(blockhashes)\n", "                bht.add_hashes(blockhashes)\n",
+      "ANALYSIS-ERROR", edits=[(RET, "           bht.set_hashes(leaves={segnum: blockhash})\n", "           bht.add_hashes(leaves={segnum: blockhash})\n"),
+                               (RET, "            self.share_hash_tree.set_hashes(hashes=sharehashes,\n",
+                                "            self.share_hash_tree.add_hashes(hashes=sharehashes,\n")]),
     # ---- C10.15 a share is judged on its own checks only (availability: k intact shares => the read succeeds)
     M("sibling-of-corrupt-share-not-recorded", SM,
       "        # Add the info to our servermap.\n        timestamp = time.time()\n",
